@@ -112,6 +112,8 @@ pub struct Env {
     pub notes: Mutex<BTreeMap<String, J>>,
     pub assumptions: Mutex<Vec<String>>,
     pub scale: f64,
+    /// proptest shrink budget for the next campaigns (expensive oracles lower it)
+    pub shrink_iters: AtomicU64,
 }
 
 fn hash_str(s: &str) -> u64 {
@@ -205,7 +207,12 @@ impl Env {
             notes: Mutex::new(BTreeMap::new()),
             assumptions: Mutex::new(vec![]),
             scale,
+            shrink_iters: AtomicU64::new(4000),
         }
+    }
+
+    pub fn set_shrink_iters(&self, n: u64) {
+        self.shrink_iters.store(n, Ordering::Relaxed);
     }
 
     /// number of cases for this tier
@@ -346,7 +353,7 @@ impl Env {
                         let cfg = Config {
                             cases: share as u32,
                             failure_persistence: None,
-                            max_shrink_iters: 4000,
+                            max_shrink_iters: self.shrink_iters.load(Ordering::Relaxed) as u32,
                             max_local_rejects: 1 << 30,
                             max_global_rejects: 1 << 30,
                             ..Config::default()
